@@ -66,6 +66,8 @@ pub struct Scenario
     pub ops: OpKinds,
     /// scenario contains rules that are not functions of their declared sources (C17 only)
     pub nondeterministic: bool,
+    /// variants whose rules file spells `dir/file` paths flat instead of as a bundle
+    pub flat_variants: Vec<usize>,
 }
 
 #[derive(Clone, Debug, PartialEq, Eq, Serialize, Deserialize)]
@@ -171,7 +173,7 @@ pub fn initial_state(sc: &Scenario, paired: bool) -> State
     {
         user_write(&mut fs, p, dom[0].clone());
     }
-    install_rules(&mut fs, &sc.variants[0]);
+    install_rules_spelled(&mut fs, &sc.variants[0], sc.flat_variants.contains(&0));
     State { fs_b: if paired { Some(fs.clone()) } else { None }, fs, variant: 0, ghost: BTreeMap::new(), path: vec![] }
 }
 
@@ -1109,7 +1111,7 @@ pub fn apply(ctx: &Ctx, st: &State, op: &Op, stats: &mut Stats, findings: &mut V
         Op::Rules { k } =>
         {
             ns.variant = *k;
-            each(&mut ns, &|fs| install_rules(fs, &sc.variants[*k]));
+            each(&mut ns, &|fs| install_rules_spelled(fs, &sc.variants[*k], sc.flat_variants.contains(k)));
         },
         Op::Build { goal } =>
         {
